@@ -43,6 +43,10 @@ def _enc(f, *a):
 
 # ------------------------------------------------------- implementation ---
 def impl(py):
+    # a process that uses the intervals normally has the scale and timeline modules loaded too
+    # (they share the d3_time table): import them so that anything they do to it is in effect
+    import labella.scale  # noqa
+    import labella.timeline  # noqa
     from labella.d3_time import d3_time
     k = py["k"]
     if k == "fields":
